@@ -433,9 +433,22 @@ fn do_wr(c: &mut Ctx, h: &Hdr, ops: &[Op], via_chunk: bool) {
         }
     }
     // a refused (panicking) call is one of the documented ones
-    for (op, r) in ops.iter().zip(res.chars()) {
+    let mut prev_tick: Option<i32> = None;
+    for (i, (op, r)) in ops.iter().zip(res.chars()).enumerate() {
         o.check(r != 'e', "-", &id, || "an in-memory write returned an error".into());
-        let _ = op;
+        // the raw writer refuses (by panicking) exactly: a tick that does not increase, a payload far beyond
+        // what a chunk header can describe; every other call is accepted
+        match op {
+            Op::Tick(t, _) => {
+                let documented = prev_tick.map(|p| *t <= p).unwrap_or(false);
+                o.check((r == 'p') == documented, "-", &id, || format!("op {}: write_tick({}) after tick {:?} {}", i, t, prev_tick, if r == 'p' { "panicked" } else { "was accepted" }));
+                if r == 'o' {
+                    prev_tick = Some(*t);
+                }
+            }
+            Op::Unknown => {}
+            _ => o.check(r != 'p' || payload_len(op) > 20000, "-", &id, || format!("op {}: writing a {}-byte payload panicked", i, payload_len(op))),
+        }
     }
 }
 
